@@ -66,7 +66,8 @@ PLANS["C02"] = Plan(
 )
 
 ROUTES = [("contracts.routes", "InUnits"), ("contracts.routes", "To"),
-          ("contracts.routes", "ConvertToUnits")]
+          ("contracts.routes", "ConvertToUnits"), ("contracts.routes", "ToValue"),
+          ("contracts.routes", "ToValueQuantity")]
 PLANS["C03"].proofs += ROUTES
 
 PLANS["C18"] = Plan(level="proof", proofs=ROUTES + [("contracts.unit_ops", "AsCoeffUnit")],
